@@ -158,22 +158,25 @@ class StmtMixin:
     # ------------------------------------------------------------------ blocks
     def exec_block(self, stmts, st):
         for s in stmts:
+            self.after_stmt(s, st, attr='hints_before')
             self.exec_stmt(s, st)
             self.after_stmt(s, st)
 
-    def after_stmt(self, node, st):
+    def after_stmt(self, node, st, attr='hints'):
         """Ghost hints of the sidecar contract: `hints={relative_line: [expr, ...]}` are proved
         right after the statement that starts on that line and may then be used (a proved
         intermediate assertion, never an assumption).  'pure:' hints are arithmetic facts proved
         without the quantified spec axioms."""
         c = self.frame.contract
-        hints = getattr(c, 'hints', None) if c is not None else None
+        # `hints_before` are proved just before the statement (for statements that leave the block: break, continue, return)
+        hints = getattr(c, attr, None) if c is not None else None
         if not hints or self.spec_mode or self.frame is not self.frames[0]:
             return
         rel = (getattr(node, 'lineno', 0) or 0) - (self.frame.finfo.lineno or 0)
         todo = list(hints.get(rel, ()))
         skeys = [k for k in hints if isinstance(k, str)]
-        if skeys and self.lang == 'py' and not isinstance(node, (ast.For, ast.While, ast.If)):
+        if skeys and self.lang == 'py' and (not isinstance(node, (ast.For, ast.While, ast.If))
+                                            or (attr == 'hints_before' and isinstance(node, ast.If))):
             try:
                 src = ast.unparse(node)
             except Exception:       # noqa: not printable: no textual hint can bind to it
@@ -187,7 +190,7 @@ class StmtMixin:
             if pure:
                 text = text[5:]
             self.oblige('hint-pure' if pure else 'hint', self.eval_spec(text, st), st, node,
-                        'ghost assertion: ' + text, detail='+%d.%d' % (rel, n_))
+                        'ghost assertion: ' + text, detail='%s+%d.%d' % ('pre' if attr == 'hints_before' else '', rel, n_))
 
     def exec_stmt(self, node, st):
         self.cur_state = st
